@@ -2664,6 +2664,14 @@ impl Default for EnvironmentData {
 pub struct JsMapKey(pub JsValue);
 
 impl JsMapKey {
+    /// The key a Map or Set stores for `value`: -0 is kept as +0
+    pub fn new(value: JsValue) -> Self {
+        match value {
+            JsValue::Number(n) if n == 0.0 => JsMapKey(JsValue::Number(0.0)),
+            other => JsMapKey(other),
+        }
+    }
+
     /// Check SameValueZero equality (used by Map/Set for key comparison)
     fn same_value_zero(a: &JsValue, b: &JsValue) -> bool {
         match (a, b) {
